@@ -69,18 +69,25 @@ fn client_emit(world: &mut World) {
                     world.client_trigger(CUnit);
                 }
             },
-            CK::Map => match cref {
-                Some(ce) => {
-                    world.send_event(CMap(seq, ce));
-                    refent = sref;
+            CK::Map => {
+                let as_trigger = world.resource::<TrigMapMode>().0;
+                let ent = match cref {
+                    Some(ce) => {
+                        refent = sref;
+                        ce
+                    }
+                    None => {
+                        // a local entity the server has never heard of: must not be sent
+                        expect = false;
+                        world.spawn_empty().id()
+                    }
+                };
+                if as_trigger {
+                    world.client_trigger(CTrigMap(seq, ent));
+                } else {
+                    world.send_event(CMap(seq, ent));
                 }
-                None => {
-                    // a local entity the server has never heard of: must not be sent
-                    let tmp = world.spawn_empty().id();
-                    world.send_event(CMap(seq, tmp));
-                    expect = false;
-                }
-            },
+            }
             CK::Trig => match cref {
                 Some(ce) if cref2.is_some_and(|c2| c2 != ce) => {
                     world.client_trigger_targets(CTrig(seq), vec![ce, cref2.unwrap()]);
@@ -105,7 +112,11 @@ fn server_emit(world: &mut World) {
     for (kind, seq, mode, refent, refent2) in q {
         match kind {
             SK::Dep => {
-                world.send_event(ToClients { mode, event: SDep(seq, refent.unwrap()) });
+                if world.resource::<TrigMapMode>().0 {
+                    world.server_trigger(ToClients { mode, event: STrigMap(seq, refent.unwrap()) });
+                } else {
+                    world.send_event(ToClients { mode, event: SDep(seq, refent.unwrap()) });
+                }
             }
             SK::Ind => {
                 world.send_event(ToClients { mode, event: SInd(seq) });
@@ -273,7 +284,17 @@ pub fn make_app_role(cfg: &Cfg, mismatch: bool, role: Role) -> App {
         .add_mapped_client_event::<CMap>(Channel::Ordered)
         .add_client_trigger::<CTrig>(Channel::Ordered)
         .add_client_event::<CList>(Channel::Ordered)
-        .add_client_trigger::<CUnit>(Channel::Ordered);
+        .add_client_trigger::<CUnit>(Channel::Ordered)
+        .add_mapped_server_trigger::<STrigMap>(Channel::Ordered)
+        .add_mapped_client_trigger::<CTrigMap>(Channel::Ordered);
+    app.insert_resource(TrigMapMode(cfg.trig_map));
+    if cfg.client_variants {
+        use bevy_replicon::shared::replication::replication_registry::command_fns;
+        app.set_command_fns::<C>(command_fns::default_write::<C>, command_fns::default_remove::<C>);
+        if with_client {
+            app.init_resource::<bevy_replicon::client::ClientReplicationStats>();
+        }
+    }
     if mismatch {
         app.replicate::<Extra>();
     }
@@ -325,6 +346,9 @@ pub fn make_app_role(cfg: &Cfg, mismatch: bool, role: Role) -> App {
         )
             .after(ClientSet::Receive),
     );
+    app.add_observer(|tr: Trigger<STrigMap>, mut log: ResMut<ClientLog>, t: Res<ServerUpdateTick>| {
+        log.0.push((SK::Dep, tr.event().0, t.get(), Some(tr.event().1)));
+    });
     app.add_observer(|tr: Trigger<STrig>, mut log: ResMut<ClientLog>, t: Res<ServerUpdateTick>| {
         let target = tr.target();
         log.0.push((SK::Trig, tr.event().0, t.get(), (target != Entity::PLACEHOLDER).then_some(target)));
@@ -370,6 +394,9 @@ pub fn make_app_role(cfg: &Cfg, mismatch: bool, role: Role) -> App {
         )
             .after(ServerSet::Receive),
     );
+    app.add_observer(|tr: Trigger<FromClient<CTrigMap>>, mut log: ResMut<ServerLog>| {
+        log.0.push((CK::Map, tr.event().event.0, tr.event().client, Some(tr.event().event.1)));
+    });
     app.add_observer(|tr: Trigger<FromClient<CUnit>>, mut log: ResMut<ServerLog>| {
         let target = tr.target();
         log.0.push((CK::Unit, 0, tr.event().client, (target != Entity::PLACEHOLDER).then_some(target)));
